@@ -131,6 +131,8 @@ package corebgp
 //@   loop#0 decreases len(b)
 //@   ensures [accept_chain] err == nil ==> len(r) >= 1 && capChain(b, poffs, len(r), len(b))
 //@   ensures [entries]      err == nil ==> (forall k :: 0 <= k && k < len(r) ==> capOK(b, poffs[k]) && b[poffs[k]] == 2 && b[poffs[k]+1] >= 2 && isType(r[k], *capabilityOptionalParam) && asType(r[k], *capabilityOptionalParam) != nil)
+//@   loop#0 invariant [typed] forall k :: 0 <= k && k < len(params) ==> isType(params[k], *capabilityOptionalParam) && asType(params[k], *capabilityOptionalParam) != nil
+//@   ensures [typed]        err == nil ==> (forall k :: 0 <= k && k < len(r) ==> isType(r[k], *capabilityOptionalParam) && asType(r[k], *capabilityOptionalParam) != nil)
 //@   ensures [nil_on_error] err != nil ==> r == nil
 //@   ensures [fault_class]  err != nil ==> isOutNotifErr(err, 2, ftype ? 4 : 0) && len(notifOf(err).Data) == 0
 //@   ensures [fault_truncated] err != nil && !ftype && !fcap ==> 0 <= fpos && fpos <= len(b) && !capOK(b, fpos)
